@@ -115,3 +115,287 @@ pub fn paging_pure(ctx: &WorkerCtx, out: &mut WorkerOut) {
     out.evaluations += evals;
     out.class("paging_pure/walks_and_offsets");
 }
+
+// ---------------------------------------------------------------------------------------
+// C18: canonical resource names
+
+use deltio::subscriptions::SubscriptionName;
+use deltio::topics::TopicName;
+use std::collections::HashMap;
+
+/// Reference grammar, written independently of the implementation:
+/// `projects/` + project (non-empty, no slash) + `/<segment>/` + id (non-empty).
+pub fn ref_parse<'a>(s: &'a str, segment: &str) -> Option<(&'a str, &'a str)> {
+    let rest = s.strip_prefix("projects/")?;
+    let (project, rest) = rest.split_once('/')?;
+    if project.is_empty() {
+        return None;
+    }
+    let rest = rest.strip_prefix(segment)?;
+    let id = rest.strip_prefix('/')?;
+    if id.is_empty() {
+        return None;
+    }
+    Some((project, id))
+}
+
+pub struct NameOracle {
+    topics: HashMap<TopicName, String>,
+    subs: HashMap<SubscriptionName, String>,
+    pub accepted: u64,
+    pub nontrivial: u64,
+}
+
+impl Default for NameOracle {
+    fn default() -> Self {
+        Self::new()
+    }
+}
+
+impl NameOracle {
+    pub fn new() -> Self {
+        NameOracle { topics: HashMap::new(), subs: HashMap::new(), accepted: 0, nontrivial: 0 }
+    }
+
+    /// Checks one string against both parsers. Returns a violation description.
+    pub fn check(&mut self, s: &str) -> Option<(String, String)> {
+        if s.starts_with("projects/") && s.matches('/').count() >= 3 {
+            self.nontrivial += 1;
+        }
+        if let Some(t) = TopicName::try_parse(s) {
+            self.accepted += 1;
+            // (1) soundness
+            if ref_parse(s, "topics").is_none() {
+                return Some(("accepted_outside_grammar".into(), format!("TopicName::try_parse accepts {:?}, which is not projects/<project>/topics/<id>", s)));
+            }
+            // (2) echo
+            let c = t.to_string();
+            match TopicName::try_parse(&c) {
+                None => return Some(("echo_rejected".into(), format!("{:?} is accepted as a topic name, but its canonical form {:?} is rejected", s, c))),
+                Some(t2) if t2 != t => return Some(("echo_denotes_other".into(), format!("{:?} echoes as {:?}, which parses to a different topic name", s, c))),
+                _ => {}
+            }
+            // (3) injectivity
+            if let Some(prev) = self.topics.get(&t) {
+                if prev != s {
+                    return Some(("not_injective".into(), format!("the different topic names {:?} and {:?} denote the same resource ({})", prev, s, c)));
+                }
+            } else if self.topics.len() < 400_000 {
+                self.topics.insert(t, s.to_string());
+            }
+        }
+        if let Some(t) = SubscriptionName::try_parse(s) {
+            self.accepted += 1;
+            if ref_parse(s, "subscriptions").is_none() {
+                return Some(("accepted_outside_grammar".into(), format!("SubscriptionName::try_parse accepts {:?}, which is not projects/<project>/subscriptions/<id>", s)));
+            }
+            let c = t.to_string();
+            match SubscriptionName::try_parse(&c) {
+                None => return Some(("echo_rejected".into(), format!("{:?} is accepted as a subscription name, but its canonical form {:?} is rejected", s, c))),
+                Some(t2) if t2 != t => return Some(("echo_denotes_other".into(), format!("{:?} echoes as {:?}, which parses to a different subscription name", s, c))),
+                _ => {}
+            }
+            if let Some(prev) = self.subs.get(&t) {
+                if prev != s {
+                    return Some(("not_injective".into(), format!("the different subscription names {:?} and {:?} denote the same resource ({})", prev, s, c)));
+                }
+            } else if self.subs.len() < 400_000 {
+                self.subs.insert(t, s.to_string());
+            }
+        }
+        None
+    }
+}
+
+const NAME_TOKENS: &[&str] = &["a", "b", "/", "é", "topics", "subscriptions", "projects", "-", "1"];
+const RAW_ALPHABET: &[&str] = &["p", "r", "/", "a", "é", "t"];
+
+fn name_failure(rule: String, detail: String, s: &str) -> Failure {
+    Failure { rule, detail, engine: "pure_names".into(), input: json!({"engine":"pure_names","strings":[s]}), trace: json!(null) }
+}
+
+pub fn names_check(ctx: &WorkerCtx, out: &mut WorkerOut) {
+    use proptest::prelude::*;
+    use proptest::test_runner::{Config, RngSeed, TestCaseError, TestError, TestRunner};
+    let max_tokens = match ctx.tier {
+        Tier::Quick => 5usize,
+        Tier::Thorough => 7usize,
+    };
+    // (a) exhaustive enumeration around the two fixed segments; every worker takes the
+    // sequences whose first token index matches its shard, so that the injectivity table of
+    // a worker sees complete neighbourhoods
+    let mut oracle = NameOracle::new();
+    let mut evals = 0u64;
+    let n = NAME_TOKENS.len() as u64;
+    let mut shard = 0u64;
+    for len in 0..=max_tokens {
+        let total = n.pow(len as u32);
+        for idx in 0..total {
+            shard += 1;
+            // shard by the first two tokens so that strings differing only in trailing parts share a worker
+            let key = if len >= 2 { idx % (n * n) } else { 0 };
+            if key % ctx.nworkers != ctx.widx {
+                continue;
+            }
+            let mut s = String::from("projects/");
+            let mut k = idx;
+            for _ in 0..len {
+                s.push_str(NAME_TOKENS[(k % n) as usize]);
+                k /= n;
+            }
+            evals += 1;
+            if let Some((rule, detail)) = oracle.check(&s) {
+                if let Some(f) = match_finding(&ctx.findings, &ctx.prop, &rule, &detail) {
+                    *out.known_hits.entry(format!("{}: {}", f.rule, f.description)).or_insert(0) += 1;
+                    continue;
+                }
+                out.evaluations += evals;
+                out.failure = Some(name_failure(rule, detail, &s));
+                return;
+            }
+            if out.samples.len() < 3 && s.matches('/').count() >= 3 && TopicName::try_parse(&s).is_some() {
+                out.samples.push(json!(s));
+            }
+        }
+    }
+    let _ = shard;
+    // raw short strings (prefix failures)
+    if ctx.widx == 0 {
+        let m = RAW_ALPHABET.len() as u64;
+        for len in 0..=5usize {
+            for idx in 0..m.pow(len as u32) {
+                let mut s = String::new();
+                let mut k = idx;
+                for _ in 0..len {
+                    s.push_str(RAW_ALPHABET[(k % m) as usize]);
+                    k /= m;
+                }
+                evals += 1;
+                if let Some((rule, detail)) = oracle.check(&s) {
+                    out.evaluations += evals;
+                    out.failure = Some(name_failure(rule, detail, &s));
+                    return;
+                }
+            }
+        }
+    }
+    out.exhaustive = Some(true);
+    out.notes.push(format!(
+        "enumerated every string projects/ + up to {} tokens from {:?} (this worker's shard) and every string of up to 5 symbols from {:?}",
+        max_tokens, NAME_TOKENS, RAW_ALPHABET
+    ));
+    // (b) random: grammar-valid names, near misses, arbitrary UTF-8
+    let cases = ctx.share(match ctx.tier {
+        Tier::Quick => 200_000,
+        Tier::Thorough => 5_000_000,
+    });
+    let seg = prop_oneof![4 => Just("topics".to_string()), 4 => Just("subscriptions".to_string()), 1 => "[a-z]{1,13}", 1 => Just("topic".to_string()), 1 => Just("Topics".to_string())];
+    let idpart = prop_oneof![4 => "[A-Za-z0-9._~%+-]{1,12}", 1 => "\\PC{1,6}", 1 => "[a-z/]{1,8}", 1 => Just(String::new())];
+    let valid = (idpart.clone(), seg, idpart).prop_map(|(p, s, i)| format!("projects/{}/{}/{}", p, s, i));
+    let mutated = (valid.clone(), 0usize..6, any::<u16>(), "\\PC{0,2}").prop_map(|(s, kind, pos, ins)| {
+        let chars: Vec<char> = s.chars().collect();
+        let p = if chars.is_empty() { 0 } else { pos as usize % chars.len() };
+        let mut c = chars.clone();
+        match kind {
+            0 => {
+                if !c.is_empty() {
+                    c.remove(p);
+                }
+            }
+            1 => {
+                if !c.is_empty() {
+                    let x = c[p];
+                    c.insert(p, x);
+                }
+            }
+            2 => {
+                if c.len() >= 2 {
+                    let q = (p + 1) % c.len();
+                    c.swap(p, q);
+                }
+            }
+            3 => {
+                for ch in ins.chars() {
+                    c.insert(p, ch);
+                }
+            }
+            4 => {
+                c.push('/');
+                if pos % 2 == 0 {
+                    c.push('/');
+                }
+            }
+            _ => {
+                c.insert(p, '/');
+            }
+        }
+        c.into_iter().collect::<String>()
+    });
+    let any_str = prop_oneof![5 => valid, 5 => mutated, 1 => "\\PC{0,40}", 1 => "projects/\\PC{0,30}"];
+    let pair = (any_str.clone(), any_str);
+    let mut runner = TestRunner::new(Config { cases: cases as u32, failure_persistence: None, rng_seed: RngSeed::Fixed(ctx.stage_seed("names_random")), max_shrink_iters: 2000, ..Config::default() });
+    let cell = std::cell::RefCell::new((oracle, 0u64, false, Vec::<serde_json::Value>::new()));
+    let findings = ctx.findings.clone();
+    let prop = ctx.prop.clone();
+    let known = std::cell::RefCell::new(std::collections::BTreeMap::<String, u64>::new());
+    let result = runner.run(&pair, |(a, b)| {
+        let mut g = cell.borrow_mut();
+        // fresh injectivity tables per pair would miss nothing here: the pair itself is the
+        // generated "for all pairs" object, the shared table only adds more pairs
+        let mut local = NameOracle::new();
+        for s in [&a, &b] {
+            if !g.2 {
+                g.1 += 1;
+            }
+            let r1 = local.check(s);
+            let r2 = if g.2 { None } else { g.0.check(s) };
+            if let Some((rule, detail)) = r1.or(r2) {
+                if let Some(f) = match_finding(&findings, &prop, &rule, &detail) {
+                    *known.borrow_mut().entry(format!("{}: {}", f.rule, f.description)).or_insert(0) += 1;
+                    continue;
+                }
+                g.2 = true;
+                return Err(TestCaseError::fail(format!("{}||{}", rule, detail)));
+            }
+        }
+        if g.3.len() < 3 && a.matches('/').count() >= 3 {
+            g.3.push(json!([a, b]));
+        }
+        Ok(())
+    });
+    let (oracle, n_random, _, samples) = cell.into_inner();
+    evals += n_random;
+    for s in samples {
+        if out.samples.len() < 6 {
+            out.samples.push(s);
+        }
+    }
+    for (k, v) in known.into_inner() {
+        *out.known_hits.entry(k).or_insert(0) += v;
+    }
+    out.evaluations += evals;
+    // distinct non-trivial strings are counted, not stored: report through fingerprints of a counter range
+    let nt = oracle.nontrivial;
+    out.fingerprints.extend((0..nt.min(2_000_000)).map(|i| i.wrapping_mul(0x9E37_79B9_7F4A_7C15) ^ ctx.widx.rotate_left(48)));
+    out.class(&format!("accepted_by_a_parser={}", oracle.accepted));
+    if let Err(TestError::Fail(reason, (a, b))) = result {
+        let msg = reason.message().to_string();
+        let (rule, detail) = msg.split_once("||").map(|(x, y)| (x.to_string(), y.to_string())).unwrap_or((msg.clone(), msg.clone()));
+        out.failure = Some(Failure { rule, detail, engine: "pure_names".into(), input: json!({"engine":"pure_names","strings":[a, b]}), trace: json!(null) });
+    }
+}
+
+pub fn replay_names(input: &serde_json::Value) -> Vec<crate::model::Violation> {
+    let mut o = NameOracle::new();
+    let mut v = Vec::new();
+    if let Some(arr) = input.get("strings").and_then(|s| s.as_array()) {
+        for s in arr {
+            if let Some(s) = s.as_str() {
+                if let Some((rule, detail)) = o.check(s) {
+                    v.push(crate::model::Violation { rule, props: vec!["C18".into()], at: 0, detail });
+                }
+            }
+        }
+    }
+    v
+}
